@@ -22,6 +22,7 @@ type Profile struct {
 	LatestCls  string // class label of latest reads
 	RangeKeys  int    // weight multiplier for range-key ops (0 = none)
 	Masks      bool
+	Limits     bool // generate *WithLimit iterator ops
 	MaxSnaps   int
 	MaxIters   int
 }
@@ -45,10 +46,10 @@ func Profiles() map[string]Profile {
 		ReadSnaps: true, RangeKeys: 1, MaxSnaps: 3})
 	add(Profile{Name: "C04", W: map[string]int{"write": 40, "ingest": 6, "excise": 3, "maint": 16, "viewiter": 12, "viewop": 20, "close": 5, "clone": 5, "batchview": 8},
 		ReadIters: true, RangeKeys: 1, MaxIters: 3, IterCls: "view"})
-	add(Profile{Name: "C05", W: map[string]int{"write": 25, "maint": 6, "batchnew": 10, "batchop": 35, "batchget": 20, "batchscan": 8, "batchiter": 8, "batchend": 8, "leak": 10},
-		RangeKeys: 1, LatestCls: "batchleak"})
+	add(Profile{Name: "C05", W: map[string]int{"write": 25, "maint": 6, "batchnew": 10, "batchop": 35, "batchget": 20, "batchscan": 8, "batchiter": 8, "batchend": 8, "leak": 10, "batchview": 8},
+		RangeKeys: 1, LatestCls: "batchleak", MaxIters: 2, Limits: true})
 	add(Profile{Name: "C02", W: map[string]int{"write": 25, "maint": 6, "positer": 10, "posop": 70, "close": 4, "setbounds": 6, "setopts": 3},
-		RangeKeys: 1, MaxIters: 2, IterCls: "pos", Masks: true})
+		RangeKeys: 1, MaxIters: 2, IterCls: "pos", Masks: true, Limits: true})
 	add(Profile{Name: "C08", W: map[string]int{"write": 35, "ingest": 8, "maint": 12, "positer": 10, "posop": 50, "close": 4, "scan": 8},
 		RangeKeys: 5, MaxIters: 2, IterCls: "rk", ScanLatest: true, LatestCls: "rk"})
 	add(Profile{Name: "C09", W: map[string]int{"write": 35, "maint": 12, "positer": 12, "posop": 50, "close": 5},
@@ -70,6 +71,8 @@ type genIter struct {
 	mask, kt   int
 	positioned bool
 	batch      bool
+	pfxMode    bool
+	dirlock    string // after a *WithLimit op: only continue in that direction (the iterator may be paused)
 }
 
 // Gen generates a random workload against a Runner.
@@ -615,6 +618,12 @@ func (g *Gen) iterOp(it *genIter, o string, k int) {
 	e := Ev{"op": "iter", "h": it.h, "o": o, "k": k}
 	g.R.Exec(e)
 	it.positioned = true
+	switch o {
+	case "seekprefixge":
+		it.pfxMode = true
+	case "first", "last", "seekge", "seeklt":
+		it.pfxMode = false
+	}
 	g.lastValid = false
 	if res, ok := e["res"].(Ev); ok {
 		g.lastValid = res.B("valid")
@@ -631,7 +640,13 @@ func (g *Gen) actIterOp() {
 	it := g.iters[g.Rng.IntN(len(g.iters))]
 	n := 1 + g.Rng.IntN(6)
 	for i := 0; i < n; i++ {
+		lim := g.P.Limits && g.Rng.IntN(3) == 0
 		if !it.positioned || g.Rng.IntN(3) == 0 {
+			if lim {
+				o := []string{"seekgel", "seekltl"}[g.Rng.IntN(2)]
+				g.iterLimOp(it, o, g.Rng.IntN(g.U.R()+1), g.Rng.IntN(g.U.R()+1))
+				continue
+			}
 			o := absOps[g.Rng.IntN(len(absOps))]
 			k := g.Rng.IntN(g.U.R() + 1)
 			if o == "seekprefixge" && k >= g.U.R() {
@@ -641,6 +656,25 @@ func (g *Gen) actIterOp() {
 				k = 0
 			}
 			g.iterOp(it, o, k)
+			it.dirlock = ""
+		} else if it.dirlock != "" || lim {
+			// continue in the locked direction (plain or limited); a plain step ends the lock
+			fwd := it.dirlock == "f" || (it.dirlock == "" && g.Rng.IntN(2) == 0)
+			if it.pfxMode && !fwd {
+				fwd = true
+			}
+			switch {
+			case lim && fwd:
+				g.iterLimOp(it, "nextl", 0, g.Rng.IntN(g.U.R()+1))
+			case lim && !fwd:
+				g.iterLimOp(it, "prevl", 0, g.Rng.IntN(g.U.R()+1))
+			case fwd:
+				g.iterOp(it, "next", 0)
+				it.dirlock = ""
+			default:
+				g.iterOp(it, "prev", 0)
+				it.dirlock = ""
+			}
 		} else {
 			g.iterOp(it, relOps[g.Rng.IntN(len(relOps))], 0)
 		}
@@ -772,6 +806,26 @@ func (g *Gen) actBatchView() {
 		it.lo, it.hi, it.mask, it.kt = lo, hi, mask, kt
 		g.R.Exec(Ev{"op": "setopts", "h": it.h, "lo": lo, "hi": hi, "mask": mask, "kt": kt, "filter": filter})
 		g.walkIter(it)
+	}
+	// refresh through SetOptions with UNCHANGED options right after seeks (the fast paths that keep
+	// positioning state): limited seek (possibly paused), batch mutation, SetOptions, seek again
+	for j := 0; j < 2; j++ {
+		k := g.Rng.IntN(g.U.R())
+		if g.Rng.IntN(2) == 0 {
+			g.iterLimOp(it, "seekgel", k, k+1+g.Rng.IntN(g.U.R()-k))
+		} else {
+			g.iterOp(it, "seekge", k)
+		}
+		g.actBatchOpOn(h)
+		g.R.Exec(Ev{"op": "setopts", "h": it.h, "lo": it.lo, "hi": it.hi, "mask": it.mask, "kt": it.kt, "filter": false})
+		k2 := k + g.Rng.IntN(g.U.R()-k)
+		if g.Rng.IntN(2) == 0 {
+			g.iterLimOp(it, "seekgel", k2, k2+1+g.Rng.IntN(g.U.R()-k2))
+		} else {
+			g.iterOp(it, "seekge", k2)
+		}
+		it.dirlock = ""
+		g.iterOp(it, "first", 0)
 	}
 }
 
